@@ -43,7 +43,7 @@ Ev == Trace[l + 1]
 TReset ==
   /\ l < Len(Trace) /\ Ev.e = "reset"
   /\ \A p \in Procs : Idle(p)
-  /\ cx' = EmptyCx /\ live' = {} /\ taint' = {} /\ ncalls' = 0 /\ h' = <<>>
+  /\ cx' = EmptyCx /\ live' = {} /\ taint' = {} /\ aliases' = {} /\ ncalls' = 0 /\ h' = <<>>
   /\ l' = l + 1 /\ Mark(l + 1)
   /\ UNCHANGED <<prog, stk, cur, ldefs, racy, turn, done, res>>
 
@@ -62,7 +62,7 @@ TInv ==
      /\ done' = [done EXCEPT ![p] = FALSE]
   /\ ncalls' = ncalls + 1
   /\ l' = l + 1 /\ Mark(l + 1)
-  /\ UNCHANGED <<cx, taint, turn, h, res, live>>
+  /\ UNCHANGED <<cx, taint, aliases, turn, h, res, live>>
 
 \* One mutex section of a pending call (silent).
 TStep(p) ==
@@ -75,6 +75,7 @@ TStep(p) ==
      /\ ldefs' = [ldefs EXCEPT ![p] = r.ld]
      /\ racy' = [racy EXCEPT ![p] = @ \/ r.race]
      /\ taint' = taint \cup r.t
+     /\ aliases' = IF cur[p].m = "reset" THEN {} ELSE aliases \cup r.ak
      /\ done' = [done EXCEPT ![p] = fin]
      /\ res' = [res EXCEPT ![p] = IF fin THEN [r |-> r.st[Len(r.st)], rb |-> r.rb] ELSE @]
      /\ h' = IF fin THEN <<[e |-> "step", p |-> p, fin |-> TRUE, r |-> r.st[Len(r.st)], rb |-> r.rb,
@@ -93,23 +94,20 @@ TResp ==
      /\ res' = [res EXCEPT ![p] = NoRes]
   /\ l' = l + 1 /\ Mark(l + 1)
   /\ h' = <<>>
-  /\ UNCHANGED <<cx, prog, stk, ldefs, racy, ncalls, live, taint, turn>>
+  /\ UNCHANGED <<cx, prog, stk, ldefs, racy, ncalls, live, taint, aliases, turn>>
 
 TReuse ==
   /\ l < Len(Trace) /\ Ev.e = "reuse" /\ Ev.b \in live
   /\ live' = live \ {Ev.b}
-  /\ LET hit == {i \in Ids(cx) : cx.toValue[i].o = Ev.b} IN
-     /\ cx' = [cx EXCEPT !.toValue = [i \in DOMAIN @ |-> IF i \in hit THEN [@[i] EXCEPT !.b = <<"garbage">>] ELSE @[i]]]
-     /\ taint' = IF hit # {} THEN taint \cup {"alias"} ELSE taint
   /\ l' = l + 1 /\ Mark(l + 1)
   /\ h' = <<>>
-  /\ UNCHANGED <<prog, stk, cur, ldefs, racy, ncalls, turn, done, res>>
+  /\ UNCHANGED <<cx, taint, aliases, prog, stk, cur, ldefs, racy, ncalls, turn, done, res>>
 
 TNext == TReset \/ TInv \/ TResp \/ TReuse \/ \E p \in Procs : TStep(p)
 
 TSpec == TInit /\ [][TNext]_tvars
 
-TView == <<cx, prog, stk, cur, ldefs, racy, live, taint, l, done, res>>
+TView == <<cx, prog, stk, cur, ldefs, racy, live, taint, aliases, l, done, res>>
 
 \* Acceptance: some behaviour consumed the whole trace.  The mark reached is
 \* printed so that the harness can name the first history that is not a
